@@ -45,13 +45,13 @@ def run_item(item, job, interner, classes, workdir):
     T = hooks.set_tracer(hooks.Tracer(interner=interner, probe=job.get("probe", False), deep=job.get("deep", False), classes=classes))
     T.reparse = job.get("reparse", False)
     name = item.get("name") or os.path.basename(item["path"])
-    tmp = os.path.join(workdir, "t%d_%s" % (item["tid"], os.path.basename(name)))
+    tmp = os.path.join(workdir, "t%d_%s" % (item["tid"], os.path.basename(name.split("#")[0])))
     if "text" in item:
         with open(tmp, "w", encoding="utf-8", newline="") as f:
             f.write(item["text"])
     else:
         shutil.copyfile(item["path"], tmp)
-    rec = {"tid": item["tid"], "file": name, "args": item.get("args", []), "tag": item.get("tag", ""), "ev": T.ev, "status": "", "texts": []}
+    rec = {"tid": item["tid"], "file": name, "args": item.get("args", []), "tag": item.get("tag", ""), "ev": T.ev, "status": "", "texts": [], "rounds": []}
     t0 = time.time()
     out, err = io.StringIO(), io.StringIO()
     try:
@@ -63,7 +63,18 @@ def run_item(item, job, interner, classes, workdir):
             for k in range(rounds):
                 if k > 0:
                     T.emit({"e": "Round", "k": k})
+                st0 = os.stat(tmp)
+                with open(tmp, "rb") as f:
+                    b0 = f.read()
+                nfix0 = T.stats.get("nfix", 0)
+                rd = {"nfix": -1, "ok": False, "sameInode": True, "sameMtime": True, "sameBytes": True}
+                rec["rounds"].append(rd)
                 res = apply_rules.apply_rules(cla, oConfig, (0, tmp))
+                st1 = os.stat(tmp)
+                with open(tmp, "rb") as f:
+                    b1 = f.read()
+                rd.update({"nfix": T.stats.get("nfix", 0) - nfix0, "ok": "--fix" in item.get("args", []), "sameInode": st0.st_ino == st1.st_ino,
+                           "sameMtime": st0.st_mtime_ns == st1.st_mtime_ns, "sameBytes": b0 == b1})
                 if job.get("keep_text", False) or rounds > 1:
                     with open(tmp, encoding="utf-8", errors="replace", newline="") as f:
                         rec["texts"].append(interner.s(f.read()))
@@ -103,7 +114,7 @@ def main():
         try:
             runs.append(run_item(item, job, interner, classes, workdir))
         except Exception:
-            runs.append({"tid": item["tid"], "file": item.get("name", item.get("path")), "status": "machinery", "tb": traceback.format_exc(), "ev": [{"e": "End"}], "texts": []})
+            runs.append({"tid": item["tid"], "file": item.get("name", item.get("path")), "status": "machinery", "tb": traceback.format_exc(), "ev": [{"e": "End"}], "texts": [], "rounds": []})
     with open(job["out"], "w") as f:
         json.dump({"traces": runs}, f, separators=(",", ":"))
     with open(job["out"] + ".strings", "w") as f:
